@@ -274,6 +274,70 @@ def rejects(table, op, a_pred, b_pred):
     return hits
 
 
+def _range_bounds(t):
+    """(lo, hi_exclusive, [const terms]) of a Range / RangeInclusive value term with constant bounds, else None"""
+    t = P.norm(t)
+    if isinstance(t, tuple) and t and t[0] == "adt" and t[1].endswith(("ops::range::Range", "ops::range::RangeInclusive")):
+        d = dict(t[3])
+        lo, hi = P.const_of(d.get("start")), P.const_of(d.get("end"))
+        if lo is not None and hi is not None:
+            return lo, hi + (1 if t[1].endswith("RangeInclusive") else 0), [d.get("start"), d.get("end")]
+    n = P.call_name(t)
+    if n and n.endswith("RangeInclusive::<Idx>::new") or n and n.endswith("RangeInclusive::new"):
+        lo, hi = P.const_of(t[4][0]), P.const_of(t[4][1])
+        if lo is not None and hi is not None:
+            return lo, hi + 1, [t[4][0], t[4][1]]
+    return None
+
+
+def rejected_sets(table, var_pred):
+    """[(guard, intervals, const terms)]: for every guard that compares a term satisfying var_pred with integer constants, the set of
+    values of that (unsigned) variable the guard rejects, as closed intervals (lo, hi) with hi None = unbounded.  Handles every
+    comparison operator in either operand order and either polarity (`x == 0`, `x < 1`, `!(x >= 1)`, `MAX < x`, `x > MAX`,
+    `!(1..=MAX).contains(&x)` …)."""
+    out = []
+    for g in table:
+        fw = g["fail_when"]
+        if not isinstance(fw, bool):
+            continue
+        rc = reject_condition(g)
+        if rc is not None:
+            op, a, b = rc
+            if var_pred(b) and not var_pred(a):
+                op, a, b = FLIP[op], b, a
+            c = P.const_of(b)
+            if not var_pred(a) or c is None:
+                continue
+            iv = {"Eq": [(c, c)], "Ne": ([(0, c - 1)] if c > 0 else []) + [(c + 1, None)], "Lt": [(0, c - 1)] if c > 0 else [],
+                  "Le": [(0, c)], "Gt": [(c + 1, None)], "Ge": [(c, None)]}[op]
+            out.append((g, iv, [b]))
+            continue
+        c = g["cond"]
+        n = P.call_name(c)
+        if n and n.rsplit("::", 1)[-1] == "contains" and len(c[4]) == 2 and var_pred(c[4][1]):
+            rb = _range_bounds(c[4][0])
+            if rb is None:
+                continue
+            lo, hi, cts = rb
+            inside = [(lo, hi - 1)] if hi > lo else []
+            outside = ([(0, lo - 1)] if lo > 0 else []) + [(hi, None)]
+            out.append((g, inside if fw else outside, cts))
+    return out
+
+
+def union_intervals(ivs):
+    """normalised union of closed integer intervals (hi None = unbounded)"""
+    ivs = sorted(ivs, key=lambda x: x[0])
+    out = []
+    for lo, hi in ivs:
+        if out and (out[-1][1] is None or lo <= out[-1][1] + 1):
+            if out[-1][1] is not None:
+                out[-1] = (out[-1][0], None if hi is None else max(out[-1][1], hi))
+        else:
+            out.append((lo, hi))
+    return out
+
+
 def call_blocks(body, pred):
     """[(bb, terminator)] of calls whose terminator satisfies pred"""
     return [(bb, t) for bb, t in body.calls() if pred(t)]
